@@ -144,6 +144,66 @@ def flatten_guards(guards):
         elif isinstance(e, ast.BoolOp) and isinstance(e.op, ast.Or) \
                 and not pol:
             todo.extend((v, False) for v in e.values)
+        elif isinstance(e, ast.BoolOp) and isinstance(e.op, ast.And) \
+                and not pol:
+            # not (A and B) holds: the disjunction of the negations holds
+            # (same atom an ``if not A or not B`` would give)
+            from .nnf import negate
+            out.append((negate(e), True))
+        else:
+            out.append((e, pol))
+    return _resolve_units(out)
+
+
+def _resolve_units(atoms):
+    """Unit resolution: a disjunct contradicted by another atom of the set is
+    dropped; a disjunction left with one disjunct becomes that atom."""
+    from .nnf import negate
+    for _ in range(4):
+        texts = set()
+        for e, pol in atoms:
+            try:
+                texts.add((ast.unparse(e), pol))
+                texts.add((ast.unparse(negate(e)), not pol))
+            except Exception:
+                pass
+        changed = False
+        out = []
+        for e, pol in atoms:
+            if pol and isinstance(e, ast.BoolOp) and isinstance(e.op, ast.Or):
+                keep = []
+                for d in e.values:
+                    dt = ast.unparse(d)
+                    if (dt, False) in texts:
+                        changed = True
+                        continue
+                    keep.append(d)
+                if len(keep) == 1:
+                    out.extend(flatten_guards_raw([(keep[0], True)]))
+                    changed = True
+                    continue
+                if keep and len(keep) != len(e.values):
+                    e = ast.copy_location(ast.BoolOp(op=ast.Or(),
+                                                     values=keep), e)
+            out.append((e, pol))
+        atoms = out
+        if not changed:
+            break
+    return atoms
+
+
+def flatten_guards_raw(guards):
+    out = []
+    todo = list(guards)
+    while todo:
+        e, pol = todo.pop()
+        if isinstance(e, ast.UnaryOp) and isinstance(e.op, ast.Not):
+            todo.append((e.operand, not pol))
+        elif isinstance(e, ast.BoolOp) and isinstance(e.op, ast.And) and pol:
+            todo.extend((v, True) for v in e.values)
+        elif isinstance(e, ast.BoolOp) and isinstance(e.op, ast.Or) \
+                and not pol:
+            todo.extend((v, False) for v in e.values)
         else:
             out.append((e, pol))
     return out
